@@ -64,6 +64,9 @@ func ruleC08(w *World, r *Report) {
 			eng.taObls(f)
 			eng.exitObls(f)
 			eng.divObls(f)
+			if strings.HasPrefix(w.Pos(f.Pos()), "pfcpiface/parse_sdf.go") {
+				eng.narrowObls(f)
+			}
 		}
 		r.floor("R08.1 parser functions", len(funcs), 15)
 	}
@@ -655,6 +658,70 @@ func ruleC08PFD(w *World, r *Report) {
 			}
 			r.check(dom, "R08.4", hn, "table writes happen after the reset", w.Pos(i.Pos()), "dominated by ResetAppPFDs", "the PFD table is written before it was reset (old and new contents mix)")
 		})
+	}
+	// each application's description list is its own: the slice stored in an entry grows from that
+	// entry's own (empty) list or from a slice made inside the per-application iteration
+	{
+		var appLoopHdr *ssa.BasicBlock
+		for _, lp := range rangeLoopsOver(h, "ApplicationIDsPFDs") {
+			appLoopHdr = lp[0]
+		}
+		nfd := 0
+		allInstrs(h, func(i ssa.Instruction) {
+			st, ok := i.(*ssa.Store)
+			if !ok {
+				return
+			}
+			fa, ok := st.Addr.(*ssa.FieldAddr)
+			if !ok || fieldVar(fa) == nil || fieldVar(fa).Name() != "flowDescs" {
+				return
+			}
+			nfd++
+			bad := ""
+			var walk func(v ssa.Value, d int)
+			seen := map[ssa.Value]bool{}
+			walk = func(v ssa.Value, d int) {
+				if d > 10 || seen[v] || bad != "" {
+					return
+				}
+				seen[v] = true
+				switch x := v.(type) {
+				case *ssa.Call:
+					if b, isB := x.Call.Value.(*ssa.Builtin); isB && b.Name() == "append" {
+						walk(x.Call.Args[0], d+1)
+						return
+					}
+					bad = "a slice returned by " + calleeName(x)
+				case *ssa.Slice:
+					walk(x.X, d+1)
+				case *ssa.Phi:
+					for _, e := range x.Edges {
+						walk(e, d+1)
+					}
+				case *ssa.UnOp:
+					if loadsField(x, "flowDescs") {
+						return // the entry's own list
+					}
+					if cell := cellOf(x.X); cell != nil {
+						for _, s2 := range storesTo(cell) {
+							walk(s2.Val, d+1)
+						}
+						return
+					}
+					bad = symOf(v).String()
+				case *ssa.MakeSlice:
+					if appLoopHdr == nil || !(appLoopHdr.Dominates(x.Block()) && reachesBlock(x.Block(), appLoopHdr) && x.Block() != appLoopHdr) {
+						bad = "a slice made once, outside the per-application loop (" + w.Pos(x.Pos()) + ")"
+					}
+				case *ssa.Const:
+				default:
+					bad = symOf(v).String()
+				}
+			}
+			walk(st.Val, 0)
+			r.check(bad == "", "R08.4", hn, fmt.Sprintf("flow description list #%d belongs to one application", nfd), w.Pos(st.Pos()), "grows from the entry's own list", "the list stored for an application is built on "+bad+": the applications of one request share a backing array, a later application overwrites the descriptions of an earlier one")
+		})
+		r.floor("R08.4 flow description list stores", nfd, 1)
 	}
 	// exits
 	nRej, nAcc := 0, 0
